@@ -353,14 +353,21 @@ def run(c):
     #     again and again); afterwards the waiting clients and a fresh one are served
     esteps = [{"op": "set_key", "guid": proxylib.GUID, "key": proxylib.KEYHEX}] + probe("warm") + \
              [{"op": "emfile_burst", "clients": 3, "hold_ms": 200, "tag": "emf"}, {"op": "sleep", "ms": 200}] + probe("emfile")
-    eev, _, _ = rig.run_rig({"steps": esteps, "drain_ms": 200}, "c13_emfile", timeout=300)
-    eb = next((e for e in eev if e["e"] == "EmfileBurst"), {})
-    if not eb.get("filled"):
-        raise util.ToolError("descriptor-exhaustion scenario did not set up: %s" % eb)
-    # (a client that cannot even connect any more -- the listening socket is gone -- counts as not answered)
-    epan = [{"location": e["location"], "message": e["message"][:160]} for e in eev if e["e"] == "Panic"]
-    eresp = [e for e in eev if e["e"] == "Response" and str(e.get("id", "")).startswith("emf_r")]
-    epr = next((e for e in eev if e["e"] == "Response" and e["id"] == "probeemfile" and e["status"] == 200), None)
+    def emfile_run(attempt):
+        eev, _, _ = rig.run_rig({"steps": esteps, "drain_ms": 200}, "c13_emfile%d" % attempt, timeout=300)
+        eb = next((e for e in eev if e["e"] == "EmfileBurst"), {})
+        if not eb.get("filled"):
+            raise util.ToolError("descriptor-exhaustion scenario did not set up: %s" % eb)
+        # (a client that cannot even connect any more -- the listening socket is gone -- counts as not answered)
+        epan = [{"location": e["location"], "message": e["message"][:160]} for e in eev if e["e"] == "Panic"]
+        eresp = [e for e in eev if e["e"] == "Response" and str(e.get("id", "")).startswith("emf_r")]
+        epr = next((e for e in eev if e["e"] == "Response" and e["id"] == "probeemfile" and e["status"] == 200), None)
+        return eb, epan, eresp, epr
+    eb, epan, eresp, epr = emfile_run(1)
+    if not epan and (len(eresp) != 3 or not epr):
+        # nothing panicked, only an answer is missing: a listener that gave up fails again, a loaded machine does not
+        c.extra["descriptor_exhaustion_first_attempt"] = {"waiting_clients_answered": len(eresp), "probe": bool(epr)}
+        eb, epan, eresp, epr = emfile_run(2)
     outcome("descriptorExhaustion", "emfile", len(eresp) == 3, len(epan), probe=bool(epr), tasks=True,
             detail={"panics": epan[:2], "waiting_clients_answered": len(eresp), "burst": eb})
     c.extra["descriptor_exhaustion"] = eb
